@@ -37,6 +37,12 @@ class Clause:
             head, text = text.split(":", 1)
             self.hide = head[len("hide "):].strip()
             text = text.strip()
+        # "assumed: <expr>": a postcondition that is NOT proved of the body
+        # (callers may use it); every such clause is an assumption listed in
+        # the evidence (Registry.assumed_clauses)
+        self.assumed = text.startswith("assumed:")
+        if self.assumed:
+            text = text[len("assumed:"):].strip()
         self.ghostdef = text.startswith("ghostdef:")
         if self.ghostdef:
             text = text[len("ghostdef:"):].strip()
